@@ -1,6 +1,7 @@
 package main
 
 import (
+	"go/token"
 	"fmt"
 	"go/types"
 	"sort"
@@ -326,6 +327,15 @@ func (e *Engine) verifyFuncOpts(key string, o RunOpts) (fr *FuncResult) {
 				}
 			}
 		}
+		// `cursor_flow f`: the read cursor f of a serialiser only positions the output -- it is compared
+		// with the length of the image, used as the low bound of a slice of it, and advanced; the
+		// image itself must not depend on it (every Read call has to see the same bytes)
+		for _, cf := range ct.Raw["cursor_flow"] {
+			for _, bad := range cursorFlowViolations(fn, strings.TrimSpace(cf)) {
+				vc.oblige(fmt.Sprintf("%s#cursor-flow:%s.%s", key, strings.TrimSpace(cf), bad.what), "site", "true", "false", x.eng.pos(bad.pos))
+			}
+			vc.oblige(fmt.Sprintf("%s#cursor-flow:%s.checked", key, strings.TrimSpace(cf)), "site", "true", "true", fmt.Sprintf("%s:%d", shortPath(ct.File), ct.Line))
+		}
 		// a site assertion that matches no call site says nothing (renamed callee, wrong ordinal):
 		// reported as a failed obligation rather than silently dropped
 		for k, sa := range ct.Asserts {
@@ -512,4 +522,79 @@ func conjuncts(t string) []string {
 		flat = append(flat, conjuncts(o)...)
 	}
 	return flat
+}
+
+type flowBad struct {
+	what string
+	pos  token.Pos
+}
+
+// cursorFlowViolations lists the uses of loads of recv.<field> that are not one of: comparison
+// with a len(...) value, low bound of a slice expression, addend of the value stored back into
+// the same field.
+func cursorFlowViolations(fn *ssa.Function, field string) []flowBad {
+	var out []flowBad
+	if len(fn.Params) == 0 {
+		return out
+	}
+	isField := func(v ssa.Value) bool {
+		fa, ok := v.(*ssa.FieldAddr)
+		if !ok {
+			return false
+		}
+		st, ok := deref(fa.X.Type()).Underlying().(*types.Struct)
+		return ok && st.Field(fa.Field).Name() == field
+	}
+	isLen := func(v ssa.Value) bool {
+		c, ok := v.(*ssa.Call)
+		if !ok {
+			return false
+		}
+		b, ok := c.Call.Value.(*ssa.Builtin)
+		return ok && b.Name() == "len"
+	}
+	n := 0
+	for _, b := range fn.Blocks {
+		for _, ins := range b.Instrs {
+			ld, ok := ins.(*ssa.UnOp)
+			if !ok || ld.Op != token.MUL || !isField(ld.X) {
+				continue
+			}
+			for _, ref := range *ld.Referrers() {
+				okUse := false
+				switch u := ref.(type) {
+				case *ssa.DebugRef:
+					okUse = true
+				case *ssa.Slice:
+					okUse = u.Low == ssa.Value(ld) && u.X != ssa.Value(ld)
+				case *ssa.BinOp:
+					other := u.X
+					if other == ssa.Value(ld) {
+						other = u.Y
+					}
+					switch u.Op {
+					case token.GEQ, token.LSS, token.GTR, token.LEQ:
+						okUse = isLen(other)
+					case token.ADD:
+						// advanced: the sum is stored back into the same field and nowhere else
+						okUse = true
+						for _, r2 := range *u.Referrers() {
+							if st, ok := r2.(*ssa.Store); ok && isField(st.Addr) && st.Val == ssa.Value(u) {
+								continue
+							}
+							if _, ok := r2.(*ssa.DebugRef); ok {
+								continue
+							}
+							okUse = false
+						}
+					}
+				}
+				if !okUse {
+					n++
+					out = append(out, flowBad{fmt.Sprintf("use%d", n), ref.Pos()})
+				}
+			}
+		}
+	}
+	return out
 }
